@@ -189,13 +189,13 @@ impl ParseContext {
     }
 
     pub fn as_parse_result(&self) -> ParseResult {
-        let segments = self
-            .segments
-            .borrow()
+        let all = self.segments.borrow();
+        let segments = all
             .iter()
-            // an empty segment with an .org still moves the location counter of its memory
-            .filter(|x| !x.borrow().is_empty() || x.borrow().address != 0)
-            .map(|x| x.borrow().clone())
+            .enumerate()
+            // an empty segment with an .org sets the location counter for what follows in its memory
+            .filter(|(i, x)| !x.borrow().is_empty() || sets_origin_for_later(&x.borrow(), &all, *i))
+            .map(|(_, x)| x.borrow().clone())
             .collect();
         let macroses = self.macros.macroses.borrow().clone();
         let messages = self.messages.borrow().clone();
@@ -206,6 +206,21 @@ impl ParseContext {
             messages,
         }
     }
+}
+
+/// Whether the empty segment, which stands at `index`, carries an `.org` that a later segment of the same memory goes
+/// on from
+pub(crate) fn sets_origin_for_later(
+    segment: &Segment,
+    segments: &Vec<Rc<RefCell<Segment>>>,
+    index: usize,
+) -> bool {
+    segment.address != 0
+        && segments
+            .iter()
+            .skip(index)
+            .skip(1)
+            .any(|later| later.borrow().t == segment.t)
 }
 
 pub fn parse_str(input: &str, common_context: &CommonContext) -> Result<ParseResult, Error> {
